@@ -15,8 +15,8 @@ type Item struct {
 	Key    string  // canonical identity inside the family (construct, immediates, spelling)
 	Module *Module
 	// Outside is non-empty when the item uses a standard WAT spelling that the dialect did not
-	// have when the engine was frozen (see frozen.go). Such an item may be rejected with an error;
-	// if it is accepted its binary must still be right, and it must never panic.
+	// have (or did not handle) when the engine was frozen (see frozen.go). Such an item may be
+	// rejected with an error; if it is accepted its binary must be right, and it must never panic.
 	Outside string
 }
 
@@ -329,6 +329,16 @@ func extraMods() []Item {
 			Elems:   []Elem{{Offset: 0, Funcs: []uint32{0}}},
 			Exports: []Export{{Name: "t", Kind: KindTable, Idx: 0}, {Name: "m", Kind: KindMemory, Idx: 0}, {Name: "g", Kind: KindGlobal, Idx: 0}}}
 		out = append(out, Item{Family: "mod", Key: "extra|anonymous table memory global", Module: m})
+	}
+	// identifiers made of digits only ($0, $1): legal WAT; must never be taken for indices
+	{
+		m := &Module{Funcs: []Func{
+			{Id: "1", Sig: FuncType{Results: []ValType{I32}}, Body: []Instr{I32Const(1)}},
+			{Id: "0", Sig: FuncType{Results: []ValType{I32}}, Body: []Instr{InsIdx(OpCall, 0)}},
+			{Id: "f", Sig: FuncType{Params: []ValType{I32, I32}, Results: []ValType{I32}}, ParamIds: []string{"1", "0"},
+				Body: []Instr{InsIdx(OpLocalGet, 1)}},
+		}}
+		out = append(out, Item{Family: "mod", Key: "extra|digit identifiers", Module: m, Outside: "identifier consisting of digits only"})
 	}
 	// named element and data segments
 	{
